@@ -116,7 +116,10 @@ M("c06_dp17_no_shuffle", ["C06"], "DP17 does not shuffle bucket entries",
 M("c07_ct14_no_deepcopy", ["C07"], "CT14 pads the caller's database in place",
   ("schemes/CT14/Pi/construction.py", "padded_database = copy.deepcopy(database)", "padded_database = database"))
 M("c07_anss16_shallow_copy", ["C07"], "ANSS16 copies the database shallowly (lists are padded in place)",
-  ("schemes/ANSS16/Scheme3/construction.py", "padded_database = copy.deepcopy(database)", "padded_database = dict(database)"))
+  ("schemes/ANSS16/Scheme3/construction.py", "padded_database = {keyword: list(identifier_list) for keyword, identifier_list in database.items()}", "padded_database = dict(database)"))
+M("c01_anss16_deepcopy_again", ["C01"], "ANSS16 copies the database with copy.deepcopy again (a list shared by two keywords is padded twice: finding 16)",
+  ("schemes/ANSS16/Scheme3/construction.py", "padded_database = {keyword: list(identifier_list) for keyword, identifier_list in database.items()}",
+   "padded_database = copy.deepcopy(database)"))
 M("c07_pibas_pop", ["C07"], "PiBas search pops entries from the index",
   ("schemes/CJJ14/PiBas/construction.py", "cipher = D.get(addr)", "cipher = D.pop(addr, None)"))
 M("c07_piptr_config_setdefault", ["C07"], "PiPtr config writes a default into the caller's dict",
